@@ -72,6 +72,10 @@ extern "C" void harness_main()
   char text[128]; int cmin = 0, cmax = 0;
   int n = DISASM_FN(&memory, BASE, text, sizeof(text), FLAGS, &cmin, &cmax);
   if (n < MINLEN || n > MAXLEN) return;              // C08's subject
+#ifdef STRIP_ANNOT
+  // the decoder appends an annotation such as " (2048)" or "  (offset: 10)" to branch targets; it is not part of the instruction text
+  { int L = (int)strlen(text); if (L > 3 && text[L - 1] == ')') { int k = L - 2; while (k > 0 && !(text[k] == '(' && text[k - 1] == ' ')) k--; if (k > 0) { k--; while (k > 0 && text[k - 1] == ' ') k--; text[k] = 0; } } }
+#endif
   symx_note_str("T", text);
   symx_note("len", n);
   // tag the assertion messages with the mnemonic so that findings are reported per instruction
@@ -90,6 +94,9 @@ extern "C" void harness_main()
   char text2[128];
   c1->memory.endian = ENDIAN;
   int d2 = DISASM_FN(&c1->memory, BASE, text2, sizeof(text2), FLAGS, &cmin, &cmax);
+#ifdef STRIP_ANNOT
+  { int L = (int)strlen(text2); if (L > 3 && text2[L - 1] == ')') { int k = L - 2; while (k > 0 && !(text2[k] == '(' && text2[k - 1] == ' ')) k--; if (k > 0) { k--; while (k > 0 && text2[k - 1] == ' ') k--; text2[k] = 0; } } }
+#endif
   symx_note_str("T2", text2);
   symx_assert(same_instruction(text, text2), TAGGED(m1, "C07: re-assembled bytes disassemble to the same instruction (numbers compared by value)"));
   // C01: walking the disassembler over the emitted bytes consumes exactly the bytes emitted
